@@ -278,6 +278,32 @@ INSTANCE_MUTATORS = {
 }
 
 
+def _only_called_by_mutators(tree: ast.Module, cname: str, meth: str, attr: str, depth: int = 0) -> bool:
+    """every call self.<meth>(...) / cls.<meth>(...) in the class sits in a documented mutator of the same attribute (or in a helper for which the same holds),
+    and there is at least one such call"""
+    if depth > 3:
+        return False
+    for c in ast.walk(tree):
+        if isinstance(c, ast.ClassDef) and c.name == cname:
+            callers = set()
+            for m in c.body:
+                if isinstance(m, (ast.FunctionDef, ast.AsyncFunctionDef)) and m.name != meth:
+                    for n in ast.walk(m):
+                        if isinstance(n, ast.Call) and isinstance(n.func, ast.Attribute) and n.func.attr == meth and isinstance(n.func.value, ast.Name) and n.func.value.id in ("self", "cls"):
+                            callers.add(m.name)
+            # used as a value (a callback handed elsewhere): not tracked
+            for m in c.body:
+                for n in ast.walk(m):
+                    if isinstance(n, ast.Attribute) and n.attr == meth and isinstance(n.ctx, ast.Load) and isinstance(n.value, ast.Name) and n.value.id in ("self", "cls"):
+                        parent_is_call = any(isinstance(k, ast.Call) and k.func is n for k in ast.walk(m))
+                        if not parent_is_call:
+                            return False
+            if not callers:
+                return False
+            return all((cname, k, attr) in INSTANCE_MUTATORS or _only_called_by_mutators(tree, cname, k, attr, depth + 1) for k in callers)
+    return False
+
+
 def _pinned_class(prog, modq: str, cname: str) -> bool:
     """the class has at least one method that existed on the pinned tree"""
     from bfsa.symexec import _is_new_function
@@ -330,6 +356,9 @@ def library_state_rules(prog, chk, pid):
                 continue
             if who == "self" and not _pinned_class(prog, q, cname):
                 continue  # a helper class that did not exist on the pinned tree may keep working state of its own objects (not of its class)
+            if who == "self" and _only_called_by_mutators(m.tree, cname, meth, attr):
+                seen_allowed.add((cname, "via:" + meth, attr))
+                continue  # a helper carved out of a documented mutator: it changes what its only callers are documented to change
             if (cname, meth, attr, who) in reported:
                 continue
             reported.add((cname, meth, attr, who))
